@@ -36,6 +36,9 @@ func lockOp(state int64, what string) libHandler {
 		if a := x.lockCell(args[0]); a != nil && x.mode == ModeInt {
 			x.storeAddr(st, a, intLit(state))
 		}
+		if state > 0 && x.contract != nil && x.contract.Interference && x.inSpec == 0 {
+			x.interfere(st, args[0])
+		}
 		return Val{Typ: rt}
 	}
 }
@@ -81,4 +84,32 @@ func (x *Exec) checkGuard(fr *Frame, st *State, p Val, write bool, ins ssa.Instr
 	goal = mkOr(goal, Term{app(">", p.Addr.Ref, x.entry.Alloc), "Bool"})
 	name := x.safetyName("lock-"+kind, fr, ins, what)
 	x.oblige("lock", name, st.Guard, goal, fmt.Sprintf("%s of guarded field %s without holding its mutex (%s)", kind, what, map[bool]string{true: "exclusively", false: "at least shared"}[write]), pos, true)
+}
+
+// interfere models what other goroutines may have done before this function got the
+// mutex ("interference" clause of the contract): every field the mutex guards -- in the
+// object the mutex belongs to -- holds an arbitrary value from here on. (For a guarded map
+// or slice field that is a fresh reference, i.e. arbitrary contents as well.) Anything
+// the function learned about those fields before it held the lock is thereby forgotten,
+// which is exactly what a check-then-lock-then-act sequence must not rely on.
+func (x *Exec) interfere(st *State, mu Val) {
+	if mu.Addr == nil || mu.Addr.Kind != akField || len(x.DB.Guards) == 0 {
+		return
+	}
+	a := mu.Addr
+	tname := strings.TrimPrefix(a.SSort, "S_")
+	if k := strings.LastIndex(tname, "."); k >= 0 {
+		tname = tname[k+1:]
+	}
+	muName := a.Struct.Field(a.Field).Name()
+	for i := 0; i < a.Struct.NumFields(); i++ {
+		f := a.Struct.Field(i)
+		if g, ok := x.DB.Guards[tname+"."+f.Name()]; !ok || g != muName {
+			continue
+		}
+		fa := &Addr{Kind: akField, Ref: a.Ref, SSort: a.SSort, Struct: a.Struct, Field: i, RootT: f.Type(), T: f.Type()}
+		nv := x.freshVal("interf_"+sanitize(f.Name()), f.Type(), st)
+		x.storeAddr(st, fa, nv.T)
+		x.assumed["interference: on acquiring "+tname+"."+muName+" the fields it guards are arbitrary (other goroutines may have run)"] = true
+	}
 }
